@@ -367,7 +367,78 @@ def unit(arg):
     return part
 
 
+PKG_CASES = {
+    # a package whose __init__ re-binds the name of a submodule to a member of it (the "one class per file" layout):
+    # `from pkgc import Base` is the CLASS for Python (attribute of the package first, submodule only if there is none)
+    'init-rebinds-submodule-name': {
+        'pkgc/__init__.py': 'from .Base import Base\nfrom . import util\n',
+        'pkgc/Base.py': 'class Base(object):\n    def bm(self):\n        self.ba = 1\n',
+        'pkgc/util.py': 'def helper():\n    return 1\n',
+        'pkgc/only.py': 'class only(object):\n    def om(self):\n        pass\n',
+    },
+}
+PKG_QUERIES = [
+    ('from pkgc import Base\nBase().bm\n', (2, 7), {'bm', 'ba'}, ('pkgc/Base.py', (2, 8))),
+    ('from pkgc import Base as B2\nB2().bm\n', (2, 5), {'bm', 'ba'}, ('pkgc/Base.py', (2, 8))),
+    ('import pkgc\npkgc.Base().bm\n', (2, 12), {'bm', 'ba'}, ('pkgc/Base.py', (2, 8))),
+    ('from pkgc import *\nBase().bm\n', (2, 7), {'bm', 'ba'}, ('pkgc/Base.py', (2, 8))),
+    ('from pkgc import util\nutil.helper\n', (2, 5), {'helper'}, ('pkgc/util.py', (1, 4))),
+    ('from pkgc import only\nonly.only().om\n', (2, 12), {'om'}, ('pkgc/only.py', (2, 8))),       # no attribute of that name: the submodule
+    ('from pkgc.Base import Base\nBase().bm\n', (2, 7), {'bm', 'ba'}, ('pkgc/Base.py', (2, 8))),
+]
+
+
+def check_packages(part):
+    out = []
+    root = tempfile.mkdtemp(prefix='c06p_')
+    try:
+        for files in PKG_CASES.values():
+            for rel, content in files.items():
+                p = os.path.join(root, rel)
+                os.makedirs(os.path.dirname(p), exist_ok=True)
+                open(p, 'w').write(content)
+        P = Project([root])
+        fn = os.path.join(root, 'x.py')
+        for text, cur, want, (dfile, dpos) in PKG_QUERIES:
+            part.count('receiver_attr_queries')
+            line = text.split('\n')[cur[0] - 1]
+            dot = line.rindex('.') + 1
+            try:
+                _pre, props = assist(P, text, (cur[0], dot), fn)
+                missing = sorted(want - set(props))
+                if missing:
+                    out.append(('package-member:proposals-missing', 'assist in `%s` lacks %s (Python resolves the name to the package attribute first)' % (line, missing)))
+                locs = location(P, text, (cur[0], len(line)), fn)
+                got = flat_any(locs)
+                if (os.path.join(root, dfile), dpos) not in got:
+                    out.append(('package-member:definition', 'location on `%s` gives %s, expected %s %s' % (line, [(f.replace(root, ''), p) for f, p in got], dfile, dpos)))
+            except Exception as e:
+                part.count('assist_crashes')
+    finally:
+        shutil.rmtree(root, ignore_errors=True)
+    return out
+
+
+def flat_any(locs):
+    out = []
+    for l in locs:
+        for x in (l if isinstance(l, list) else [l]):
+            out.append((x.get('file'), tuple(x['loc'])))
+    return out
+
+
+def unit_packages(_):
+    part = Part()
+    part.count('evaluations')
+    for sig, what in check_packages(part):
+        part.violation(sig, what, {'kind': 'packages'})
+    part.outcome('packages')
+    return part
+
+
 def replay(w):
+    if w.get('kind') == 'packages':
+        return check_packages(Part())
     classes = [(tuple(c[:-2]), c[-2], c[-1]) for c in w['classes']]
     root = tempfile.mkdtemp(prefix='c06r_')
     try:
@@ -382,6 +453,7 @@ def run(ctx):
     step = 60
     units = [(ctx.tier, lo, min(n, lo + step)) for lo in range(0, n, step)]
     ctx.pmap(unit, ctx.shuffled(units), chunksize=1)
+    ctx.merge(unit_packages(None))
     c = ctx.counters
     ctx.counters['distinct_nontrivial'] = int(c['hierarchies'])
     ctx.coverage.update({
